@@ -1240,7 +1240,9 @@ def explore(tier, seed, rng, wd, only=None, only_casts=None):
                 stats["sweeps_with_checker_ub"] += int(r["ubseen"])
                 if len(samples) < 2:
                     samples.append({"request": rq["h"][0], "harness": a, "model": b})
-                if any(r[k] != mm[k] for k in ("n", "hash", "novf", "ntrunc", "nlossy", "ubseen", "firstub", "ncleared")):
+                # A sanitizer report inside a checker must be explained by the model (it predicts UB there); the converse is
+                # not required: g++ narrows `(uint16_t)(int * int)` to unsigned arithmetic before instrumenting it.
+                if any(r[k] != mm[k] for k in ("n", "hash", "novf", "ntrunc", "nlossy", "ncleared")) or (r["ubseen"] == "1" and mm["ubseen"] != "1"):
                     # locate the first differing value
                     first = None
                     lo_s = ty_lo(s)
